@@ -5,6 +5,7 @@ import (
 	"errors"
 	"math/big"
 
+	cfg "github.com/lianxiangcloud/linkchain/config"
 	"github.com/lianxiangcloud/linkchain/libs/common"
 	"github.com/lianxiangcloud/linkchain/types"
 )
@@ -305,4 +306,86 @@ func H_C20_jumpdest_validity_depends_on_the_frames_code_only() {
 	want := make(destinations).has(common.Hash{0x01}, code2, new(big.Int).SetUint64(pos))
 	verifReach("jump-decided")
 	verifAssert(got == want, "jump-validity-is-that-of-a-fresh-analysis-of-the-frames-own-code")
+}
+
+// ---- the interpreter loop itself, over an abstract instruction set ----
+//
+// The real Interpreter.Run (fetch, validity, stack validation, memory size, gas function, UseGas,
+// resize, execute, pc/halting, and the transfer-fee bookkeeping around a gas function that reserved a
+// fee) runs a three-instruction program over a jump table of four abstract operations that follow the
+// protocol the real gas and execution functions follow:
+//   00 halt; 01 an ordinary operation with an arbitrary cost (or a gas-function error);
+//   02 a value-transferring call: its gas function reserves a fee (appends to evm.fees, sets
+//      evm.feeSaved) and may still fail; its execution keeps the fee or, when the call fails, moves
+//      everything from its fee on to the refunds (as opCall does);
+//   03 a call without value whose callee frames - the same interpreter, recursively - leave
+//      evm.feeSaved in an arbitrary state and all their fees cleaned up.
+// For every program, gas amount and outcome: the loop does not fail at run time, never leaves more
+// gas than it was given, and the fee stack never holds more entries than fee-reserving operations
+// were paid for.
+var (
+	c20iPaidFeeOps int
+)
+
+func c20iStackOK(stack *Stack) error { return nil }
+
+func c20iTable() [256]operation {
+	var t [256]operation
+	t[0] = operation{valid: true, halts: true, validateStack: c20iStackOK,
+		gasCost: func(gt cfg.GasTable, evm *EVM, c *Contract, s *Stack, m *Memory, ms uint64) (uint64, error) { return 0, nil },
+		execute: func(pc *uint64, evm *EVM, c *Contract, m *Memory, s *Stack) ([]byte, error) { return nil, nil }}
+	t[1] = operation{valid: true, validateStack: c20iStackOK,
+		gasCost: func(gt cfg.GasTable, evm *EVM, c *Contract, s *Stack, m *Memory, ms uint64) (uint64, error) {
+			if verifNondetBool() {
+				return 0, errGasUintOverflow
+			}
+			return uint64(verifNondetUint8()), nil
+		},
+		execute: func(pc *uint64, evm *EVM, c *Contract, m *Memory, s *Stack) ([]byte, error) { return nil, nil }}
+	t[2] = operation{valid: true, validateStack: c20iStackOK,
+		gasCost: func(gt cfg.GasTable, evm *EVM, c *Contract, s *Stack, m *Memory, ms uint64) (uint64, error) {
+			fee := 1 + uint64(verifNondetUint8()%4)
+			evm.fees = append(evm.fees, fee)
+			evm.feeSaved = true
+			if verifNondetBool() {
+				return 0, errGasUintOverflow // e.g. callGas overflow after the fee was reserved
+			}
+			return 2 + fee, nil
+		},
+		execute: func(pc *uint64, evm *EVM, c *Contract, m *Memory, s *Stack) ([]byte, error) {
+			c20iPaidFeeOps++
+			start := len(evm.fees) - 1
+			if verifNondetBool() { // the call failed: its fee and its callees' fees become refunds
+				evm.refundFees = append(evm.refundFees, evm.fees[start:]...)
+				evm.fees = evm.fees[:start]
+			}
+			return nil, nil
+		}}
+	t[3] = operation{valid: true, validateStack: c20iStackOK,
+		gasCost: func(gt cfg.GasTable, evm *EVM, c *Contract, s *Stack, m *Memory, ms uint64) (uint64, error) { return 1, nil },
+		execute: func(pc *uint64, evm *EVM, c *Contract, m *Memory, s *Stack) ([]byte, error) {
+			evm.feeSaved = verifNondetBool() // whatever the callee frames' last gas function left
+			return nil, nil
+		}}
+	return t
+}
+
+//verif:opt unwind=16 budget_s=900 split=16
+func H_C20_interpreter_loop_survives_any_fee_protocol_run() {
+	evm := &EVM{Issued: make(chan bool, 1)}
+	in := &Interpreter{evm: evm, cfg: Config{JumpTable: c20iTable()}}
+	evm.interpreter = in
+	code := []byte{byte(verifCase(4)), byte(verifCase(4)), byte(verifCase(4)), 0}
+	gas := uint64(verifNondetUint8())
+	contract := NewContract(AccountRef(c20Caller), AccountRef(c20Contract), new(big.Int), gas)
+	a := c20Contract
+	contract.SetCallCode(&a, common.Hash{0x01}, code)
+	c20iPaidFeeOps = 0
+	_, err := in.Run(contract, nil, false)
+	verifReach("frame-ran")
+	verifAssert(contract.Gas <= gas, "loop-never-leaves-more-gas-than-given")
+	verifAssert(len(evm.fees) <= c20iPaidFeeOps+1, "fee-stack-holds-only-fees-of-operations-that-reserved-them")
+	if err == nil {
+		verifAssert(len(evm.fees) <= c20iPaidFeeOps, "completed-frame-keeps-only-paid-fees")
+	}
 }
